@@ -352,14 +352,15 @@ Proof.
   - destruct (negb (mem_bytes c avail)); cbn [fst]; auto.
     destruct (negb (parent_ok k' w)); cbn [fst]; auto.
     destruct c; destruct (lookup w k') as [[]|]; cbn [fst]; auto; rewrite lookup_set, key_eqb_neq; auto.
-  - destruct (negb (parent_ok k' w)); cbn [fst]; auto.
+  - destruct (negb (mem_bytes c avail)); cbn [fst]; auto.
+    destruct (negb (parent_ok k' w)); cbn [fst]; auto.
     destruct (lookup w k') as [[]|]; cbn [fst]; auto; rewrite lookup_set, key_eqb_neq; auto.
 Qed.
 
 Definition cf_step (lt : link) (avail : list bytes) (acc : ws * errs) (kc : key * option bytes) : ws * errs :=
   let '(w1, e1) := create_file lt avail (fst acc) kc in (w1, snd acc ++ e1).
 Lemma create_files_eq lt avail l w :
-  create_files lt avail l w = fold_left (cf_step lt avail) l (make_parents l w, []).
+  create_files lt avail l w = fold_left (cf_step lt avail) l (make_parents lt avail l w, []).
 Proof. reflexivity. Qed.
 Lemma cf_step_fst lt avail acc kc : fst (cf_step lt avail acc kc) = fst (create_file lt avail (fst acc) kc).
 Proof. unfold cf_step. now destruct (create_file lt avail (fst acc) kc). Qed.
@@ -375,16 +376,16 @@ Proof.
   rewrite cf_step_fst. apply create_file_other. eapply H. now left.
 Qed.
 
-Lemma make_parents_other l : forall w k,
-  (forall k' c, In (k', c) l -> is_prefix k k' = false) -> lookup (make_parents l w) k = lookup w k.
+Lemma make_parents_other lt avail l : forall w k,
+  (forall k' c, In (k', c) l -> is_prefix k k' = false) -> lookup (make_parents lt avail l w) k = lookup w k.
 Proof.
   unfold make_parents. induction l as [|[k1 c1] l IH]; intros w k H; simpl; auto.
-  rewrite IH by (intros; eapply H; right; eauto). destruct c1; auto.
-  rewrite makedirs_spec. destruct (lookup w k); auto.
+  rewrite IH by (intros; eapply H; right; eauto). destruct (to_transfer lt avail (k1, c1)); auto.
+  cbn [fst]. rewrite makedirs_spec. destruct (lookup w k); auto.
   destruct (mem_key k (prefixes (parent k1))) eqn:E; auto.
   apply mem_key_spec, prefixes_is_prefix in E as [E _].
-  rewrite (is_prefix_trans _ _ _ E (is_prefix_removelast k1)) in (H k1 (Some b)). 
-  specialize (H k1 (Some b) (or_introl eq_refl)). discriminate.
+  specialize (H k1 c1 (or_introl eq_refl)).
+  rewrite (is_prefix_trans _ _ _ E (is_prefix_removelast k1)) in H. discriminate.
 Qed.
 
 Lemma lookup_set_exec_shared c w k :
@@ -456,30 +457,29 @@ Definition unavailable (avail : list bytes) (c : option bytes) : bool :=
 Definition ecode (c : option bytes) : N := match c with None => 3 | Some _ => 2 end.
 
 Lemma create_file_unavail lt avail w k c :
-  lt <> Symlink -> unavailable avail c = true -> snd (create_file lt avail w (k, c)) = [(k, ecode c)].
+  unavailable avail c = true -> snd (create_file lt avail w (k, c)) = [(k, ecode c)].
 Proof.
-  intros L U. unfold create_file. cbn [fst snd]. destruct c as [c|]; auto. simpl in U.
-  destruct lt; try congruence; rewrite U; reflexivity.
+  intros U. unfold create_file. cbn [fst snd]. destruct c as [c|]; auto. simpl in U.
+  destruct lt; rewrite U; reflexivity.
 Qed.
 
 Lemma create_files_err lt avail l : forall acc k c,
-  lt <> Symlink -> unavailable avail c = true ->
+  unavailable avail c = true ->
   In (k, ecode c) (snd acc) \/ In (k, c) l -> In (k, ecode c) (snd (fold_left (cf_step lt avail) l acc)).
 Proof.
-  induction l as [|kc l IH]; intros acc k c L U H; simpl.
+  induction l as [|kc l IH]; intros acc k c U H; simpl.
   - destruct H as [H|[]]; auto.
   - apply IH; auto. rewrite cf_step_snd, in_app_iff. destruct H as [H|[->|H]]; auto.
     left. right. rewrite create_file_unavail; auto. now left.
 Qed.
 
 Theorem errors_reported lt delete avail tr order w t k x c :
-  lt <> Symlink ->
   lookup (fst (expand tr t)) k = Some (TFile x c) ->
   unavailable avail c = true ->
   same_file (lookup w k) (Some (TFile x c)) = false ->
   In (k, ecode c) (o_errs (checkout lt delete avail tr order w t)).
 Proof.
-  intros L T U S. unfold checkout. rewrite apply_errs, in_app_iff. right.
+  intros T U S. unfold checkout. rewrite apply_errs, in_app_iff. right.
   unfold ws4. rewrite create_files_eq. apply create_files_err; auto. right.
   apply In_files_create. rewrite T. unfold fc. cbn [t_file t_content]. now rewrite S.
 Qed.
@@ -553,23 +553,15 @@ Proof.
   destruct H as [<-|[<-|[<-|[]]]]; vm_compute in P; discriminate.
 Qed.
 
-(* an unavailable source is reported under copy and hardlink ... *)
+(* an unavailable source is reported *)
 Example ex_errors_reported :
   o_errs (checkout Hardlink true [[65]] [] [] ex_ws ex_target) = [([[100]; [101]], 2)] /\
   unavailable [[65]] (Some [69]) = true /\
   lookup (fst (expand [] ex_target)) [[100]; [101]] = Some (TFile false (Some [69])).
 Proof. repeat split; vm_compute; reflexivity. Qed.
 
-(* ... but NOT under symlink: a dangling link is made and onerror is never called.  This is the
-   behaviour of the real code (os.symlink does not look at its source); the statement of
-   errors_reported without [lt <> Symlink] is false. *)
-Theorem errors_reported_symlink_refuted :
-  exists avail tr order w t k x c,
-    lookup (fst (expand tr t)) k = Some (TFile x c) /\ unavailable avail c = true /\
-    same_file (lookup w k) (Some (TFile x c)) = false /\
-    ~ In (k, ecode c) (o_errs (checkout Symlink true avail tr order w t)) /\
-    lookup (o_ws (checkout Symlink true avail tr order w t)) k = Some Dangling.
-Proof.
-  exists [[65]], [], [], ex_ws, ex_target, [[100]; [101]], false, (Some [69]).
-  repeat split; try (vm_compute; reflexivity). vm_compute. tauto.
-Qed.
+(* ... and, since 41e56e8, under symlink too (no dangling link is made) *)
+Example ex_errors_reported_symlink :
+  let o := checkout Symlink true [[65]] [] [] ex_ws ex_target in
+  o_errs o = [([[100]; [101]], 2)] /\ lookup (o_ws o) [[100]; [101]] = None.
+Proof. split; vm_compute; reflexivity. Qed.
